@@ -820,6 +820,40 @@ theorem ibudget_append (a b : List IOp) : ibudget (a ++ b) = ibudget a + ibudget
   | nil => simp [ibudget]
   | cons op a ih => simp only [List.cons_append, ibudget, ih]; omega
 
+/-! ### the keyed map of the installation -/
+
+theorem ispecRun_append (P : Archive.Params) (m : Store.Map) (a b : List IOp) :
+    ispecRun P m (a ++ b) =
+      ((ispecRun P (ispecRun P m a).1 b).1, (ispecRun P m a).2 ++ (ispecRun P (ispecRun P m a).1 b).2) := by
+  induction a generalizing m with
+  | nil => rfl
+  | cons op a ih => simp only [List.cons_append, ispecRun, ih]
+
+/-- the installation has no remove: a binding survives every history whose writes under the same
+nine key bytes carry the same content. -/
+theorem ispec_keeps (P : Archive.Params) (k : Nat) (d : Bytes) : ∀ (ops : List IOp) (m : Store.Map),
+    m k = some d → (∀ d' c', IOp.write d' c' ∈ ops → keyOf P d' = k → d' = d) →
+    (ispecRun P m ops).1 k = some d := by
+  intro ops
+  induction ops with
+  | nil => intro m h _; exact h
+  | cons op ops ih =>
+    intro m h hk
+    simp only [ispecRun]
+    apply ih
+    · cases op with
+      | write d' c' =>
+        simp only [ispec, Store.Map.set]
+        split
+        · rename_i hkk; rw [hk d' c' List.mem_cons_self hkk.symm]
+        · exact h
+      | read key => simp only [ispec]; split <;> exact h
+      | has key => exact h
+      | reopen => exact h
+      | openOnly => exact h
+      | init => exact h
+    · exact fun d' c' hm => hk d' c' (List.mem_cons_of_mem _ hm)
+
 /-! ### beyond 1 GiB: the offset an `.idx` record can hold -/
 
 /-- what the 5-byte location field of an `.idx` record keeps of ANY archive id and offset: the
